@@ -269,7 +269,12 @@ func init() {
 			return e.ops[i].Kind + " " + e.ops[i].Path
 		},
 		"verifLockHeld": func(fr *Frame, a []Value) Value {
-			l, ok := fr.it.env.locks[clean(concStr(a[0], "verifLockHeld"))]
+			e := fr.it.env
+			n, ok := e.nodes[clean(concStr(a[0], "verifLockHeld"))]
+			if !ok || n.isDir {
+				return false
+			}
+			l, ok := e.locks[fmt.Sprintf("ino:%d", n.file.ino)]
 			return ok && l.held
 		},
 		"verifFailAt": func(fr *Frame, a []Value) Value {
